@@ -184,6 +184,16 @@ def run(seed=0, rounds=400):
     from native import axioms_c01  # n-d denotations of the evaluable node constructors (contracts/c01_nd.py)
     for _ in range(max(1, rounds // 40)):
         axioms_c01.run(check, rng, 0)
+    from native import axioms_c05  # externals of the C05 extension contracts (argsort / nonzero-by-count, IR meaning table)
+    for _ in range(rounds):
+        axioms_c05.run(check, rng, int(rng.randint(0, 7)))
+    try:
+        import nutils  # noqa: F401 (only when the repository is importable, i.e. under the native interpreter)
+    except ImportError:
+        pass
+    else:
+        for _ in range(20):
+            axioms_c05.run_ir(check, rng)
     from native import axioms_c14  # externals of the C14 extension contracts (mask rank function, math.fsum/sqrt, float ** 2)
     for _ in range(rounds):
         axioms_c14.run(check, rng, int(rng.randint(0, 7)))
